@@ -22,7 +22,7 @@ import (
 // are released, the ended sessions' cookies are refused.
 
 type RStep struct {
-	Op   string `json:"op"`             // start wait release sleep spin join
+	Op   string `json:"op"`             // start wait done release sleep spin
 	K    int    `json:"k,omitempty"`    // goroutine
 	S    int    `json:"s,omitempty"`    // session slot
 	Act  string `json:"act,omitempty"`  // req del
@@ -51,7 +51,15 @@ type RaceResult struct {
 	CreatedAt []int64        `json:"created_at"` // instant at which each slot's session was created
 	Created   []string       `json:"created"`  // server session ids, by slot
 	Ends      map[string]int `json:"ends"`     // ConnEnd deliveries per server session id after settling
-	EndsEarly map[string]int `json:"ends_early"`
+	EndsEarly map[string]int `json:"ends_early"` // ConnEnd deliveries when every goroutine had returned (before settling)
+	// the lock names listed by LockServer.Locks() at that moment (a request goroutine K locks "race-K"), and the ConnEnd
+	// deliveries read once more after the listing (a session that ends in between is not judged)
+	LocksJoin  []string       `json:"locks_join"`
+	EndsEarly2 map[string]int `json:"ends_early2"`
+	// ConnEnd deliveries that had RETURNED (DestroySession finished) before / after the listing: the timer's function is not one
+	// of the joined goroutines, it may still be inside the lock server when every handler has returned
+	DoneJoin  map[string]int `json:"done_join"`
+	DoneJoin2 map[string]int `json:"done_join2"`
 	Post      []int          `json:"post"` // status of a request with each slot's cookie after settling
 	LocksLeft int            `json:"locks_left"`
 	Panic     string         `json:"panic,omitempty"`
@@ -207,6 +215,17 @@ func RunScenario(sc *Scenario) RaceResult {
 					}
 				}
 			}
+		case "done": // until goroutine K has returned
+			if d := done[st.K]; d != nil {
+				if virtual {
+					<-d
+				} else {
+					select {
+					case <-d:
+					case <-time.After(5 * time.Second):
+					}
+				}
+			}
 		case "release":
 			if g := gates[st.K]; g != nil && !released[st.K] {
 				released[st.K] = true
@@ -248,9 +267,26 @@ func RunScenario(sc *Scenario) RaceResult {
 			return res
 		}
 	}
+	res.DoneJoin, res.DoneJoin2 = map[string]int{}, map[string]int{}
 	R.wrap.mu.Lock()
 	for _, sid := range R.wrap.ends {
 		res.EndsEarly[sid]++
+	}
+	for _, sid := range R.wrap.ended {
+		res.DoneJoin[sid]++
+	}
+	R.wrap.mu.Unlock()
+	res.LocksJoin = []string{}
+	for _, l := range R.srv.Locks() {
+		res.LocksJoin = append(res.LocksJoin, l.Name())
+	}
+	res.EndsEarly2 = map[string]int{}
+	R.wrap.mu.Lock()
+	for _, sid := range R.wrap.ends {
+		res.EndsEarly2[sid]++
+	}
+	for _, sid := range R.wrap.ended {
+		res.DoneJoin2[sid]++
 	}
 	R.wrap.mu.Unlock()
 	// settle: a full timeout of idleness (and more) for every session
